@@ -59,6 +59,13 @@ func (d *qeDom) Gen(r *gen.R, tier string, emit func(string)) {
 		}
 		emit(wire.Line(args...))
 	}
+	// the two ways a subscription fails, for every resource type (always, whatever the seed)
+	for _, op := range []string{"startfail", "startstopped"} {
+		for _, typ := range []string{"0", "1", "2"} {
+			emit(wire.Line("reset"))
+			emit(wire.Line(op, typ))
+		}
+	}
 	for b := 0; b < blocks; b++ {
 		emit(wire.Line("reset"))
 		typ := strconv.Itoa(r.Intn(3))
